@@ -310,6 +310,15 @@ class Sim:
     def script(self): return ' '.join(self.toks)
 
 
+TLS_SPECIAL = list(range(20, 30))      # keys "__x" "_" "" (200 x L) "__session" "__" "__GC2" "__Exceptions" "__G" "key with spaces"
+
+
+def tls_slot(rng, avoid=()):
+    """a thread-local key: half of the time one of the unusual but legal shapes"""
+    pool = [x for x in (TLS_SPECIAL if rng.random() < .5 else range(1, 9)) if x not in avoid]
+    return rng.choice(pool or [x for x in range(1, 19) if x not in avoid])
+
+
 def attach(s, t, rng, via=None):
     """make t reachable through a fresh or existing holder chosen at random; returns holder"""
     k = via or rng.choice('SRALTEUYZ')
@@ -325,7 +334,7 @@ def root_somehow(s, i, rng, tlsslot=None):
         s.keep(i)
         return ('stack', i)
     if kind == 'tls':
-        slot = tlsslot if tlsslot is not None else rng.randrange(1, 9)
+        slot = tlsslot if tlsslot is not None else tls_slot(rng, avoid=s.tls)
         s.tls_set(slot, i); s.drop(i)
         return ('tls', slot)
     hk = rng.choice('RSALTEUYZ')
@@ -368,7 +377,7 @@ def gen_random(rng, maxnodes, maxops):
             if rng.random() < .7:
                 h = s.pick(lambda h: s.n[h]['k'] in HOLD and h != i and s.usable(h) and ok_edge(s, h, i))
                 if h is not None: s.link(h, i)
-            if rng.random() < .15 and i not in s.owned and s.isreg(i): s.tls_set(rng.randrange(1, 6), i)
+            if rng.random() < .15 and i not in s.owned and s.isreg(i): s.tls_set(tls_slot(rng), i)
             if rng.random() < .75: s.drop(i)
         elif r < .38 and len(s.n) < maxnodes:
             # a Box with a freshly made, exclusively owned target
@@ -398,7 +407,7 @@ def gen_random(rng, maxnodes, maxops):
             if s.tls: s.tls_rem(rng.choice(sorted(s.tls)))
         elif r < .85:
             t = s.pick(lambda t: s.isreg(t) and t not in s.owned and s.usable(t))
-            if t is not None: s.tls_set(rng.randrange(1, 6), t)
+            if t is not None: s.tls_set(tls_slot(rng), t)
         elif r < .855 and len(s.n) < maxnodes:
             # copy of a usable object none of whose targets is exclusively owned
             c = s.pick(lambda i: s.n[i]['k'] in 'SRALTEYZU' and s.usable(i)
@@ -599,7 +608,7 @@ def gen_finaliser(rng):
         pk = rng.choice('KKTP')
         if pk == 'K': place = ('K',)
         elif pk == 'T':
-            slot = rng.choice([x for x in range(1, 9) if ('T', x) not in used]); place = ('T', slot)
+            slot = tls_slot(rng, avoid=[u[1] for u in used if u[0] == 'T']); place = ('T', slot)
         else:
             h = rng.choice(live); i = rng.randrange(len(s.n[h]['f']))
             if ('P', h, i) in used: place = ('K',)
@@ -663,9 +672,9 @@ def gen_deep(rng, length, kind=None, mix=None):
         if mix == 'elem':
             c = s.new(rng.choice('ALTEYZU'), root=rng.random() < .3)
             s.link(c, hd); s.drop(hd)
-            roots.append(root_somehow(s, c, rng, tlsslot=len(roots) + 1))
+            roots.append(root_somehow(s, c, rng))
         else:
-            roots.append(root_somehow(s, hd, rng, tlsslot=len(roots) + 1))
+            roots.append(root_somehow(s, hd, rng))
     s.exact(); s.collect()
     if rng.random() < .5: s.burst(rng.choice([10, 100]))
     s.collect(narrow=True)
@@ -701,7 +710,7 @@ def gen_bulk(rng):
     for _ in range(rng.randrange(1, 4)):
         k = rng.choice('AALLUTEYZ')
         c = s.new(k, root=rng.random() < .2)
-        r = root_somehow(s, c, rng, tlsslot=len(conts) + 1)
+        r = root_somehow(s, c, rng)
         conts.append((c, r))
         for _ in range(rng.randrange(1, 4)):
             if k in 'AL': mode = rng.choice('cca')
@@ -1004,6 +1013,9 @@ def classify(case, impl, why):
 
 
 CORPUS = [
+    # seed C01-r6-2: thread-local roots under keys of every legal shape, main thread and worker thread
+    'N1S T+24=1 K-1 N2R T+20=2 K-2 N3S T+21=3 K-3 N4S T+22=4 K-4 N5S T+23=5 K-5 E G T-24 E',
+    '@ N1S T+25=1 K-1 N2R T+26=2 K-2 N3S T+27=3 K-3 N4S T+28=4 K-4 N5S T+29=5 K-5 E G M40 E T-25 T-26 E',
     'L1,4100,R,0 E K-4100 E', 'L1,4200,U,0 T+1=4200 K-4200 G E T-1 E',       # seed C01-r5-2: marking must nest deeper than 4096
     'N1A B1,c,300,10 E G',                                 # seed C01-r3-1: threshold collections in the middle of concat
     'N1A B1,a,300,10 E', 'N1U B1,c,200,10 E',              # ... of assign into an Array, of concat into a heap Tuple
